@@ -162,6 +162,23 @@ func (e *Expr2) gate(r EvalResult) EvalResult {
 	return r
 }
 
+// IntDivUndefined is the reason given for an integer division whose quotient is not an integer.
+const IntDivUndefined = "integer division with a non-integral quotient (rounding is not documented)"
+
+// DivRounding selects what such a division evaluates to: "" = undefined (the default), "floor" or
+// "trunc". The documents do not say; the two candidates are used to tell apart the evaluations on
+// which every rounding rule agrees (non-negative quotients) from the rest. Not safe for concurrent
+// use (the checks evaluate sequentially).
+var DivRounding = ""
+
+// EvalRounded evaluates with the given rounding rule for inexact integer divisions.
+func (e *Expr2) EvalRounded(mode string, fields map[string]*big.Rat, vecs map[string][]*big.Rat) EvalResult {
+	old := DivRounding
+	DivRounding = mode
+	defer func() { DivRounding = old }()
+	return e.Eval(fields, vecs)
+}
+
 // EvalResult of the exact evaluator.
 type EvalResult struct {
 	Val       *big.Rat
@@ -278,7 +295,15 @@ func (e *Expr2) eval(fields map[string]*big.Rat, vecs map[string][]*big.Rat) Eva
 			}
 			z.Quo(l.Val, r.Val)
 			if e.L.IsIntTyped() && e.R.IsIntTyped() && !z.IsInt() {
-				return EvalResult{Undefined: "integer division with a non-integral quotient (rounding is not documented)"}
+				switch DivRounding {
+				case "floor", "trunc":
+					q := new(big.Int).Quo(z.Num(), z.Denom()) // truncates toward zero
+					if DivRounding == "floor" && z.Sign() < 0 {
+						q.Sub(q, big.NewInt(1))
+					}
+					return EvalResult{Val: new(big.Rat).SetInt(q)}
+				}
+				return EvalResult{Undefined: IntDivUndefined}
 			}
 		}
 		return EvalResult{Val: z}
